@@ -115,6 +115,16 @@ def r10_1(ctx, prog, crate):
                               "size taken from parameter `%s`" % s.a, c.line())
 
 
+def _tally_sites(b):
+    """Where a tally function records the operation: a call of tally_op(self, op, size), or - the same thing written in
+    place - a call of AllocOpMap::get_mut(&mut self.tallies, op) whose slot is then updated."""
+    out = [c for c in b.live_calls() if c.callee == "alloc::ThreadAllocInfo::tally_op"]
+    for c in b.live_calls():
+        if c.callee == "alloc::AllocOpMap::get_mut" and c.args and any(z.label() == "param:self.tallies" for z in b.prov.op_src(c.args[0])):
+            out.append(c)
+    return out
+
+
 def r10_2(ctx, prog, crate):
     specs = {"tally_alloc": "Alloc", "tally_dealloc": "Dealloc"}
     for fn, variant in specs.items():
@@ -122,18 +132,20 @@ def r10_2(ctx, prog, crate):
         if not ctx.anchor("R10.2", fn, 1 if b else 0, 1):
             continue
         ctx.saw(b)
-        ops = [c for c in b.live_calls() if c.callee == "alloc::ThreadAllocInfo::tally_op"]
-        if not ctx.check(len(ops) == 1, "R10.2", [fn, "one-tally_op"], "expected one tally_op call, found %d" % len(ops), b.where(0)):
+        ops = _tally_sites(b)
+        if not ctx.check(len(ops) == 1, "R10.2", [fn, "one-tally_op"], "expected one tally_op call (or one update of a self.tallies slot), found %d" % len(ops), b.where(0)):
             continue
         c = ops[0]
         s1 = b.prov.op_src(c.args[1])
         ctx.check({s.a for s in s1 if s.kind == "variant"} == {"alloc::AllocOp::" + variant} and
                   not any(s.kind in ("param", "call") for s in s1), "R10.2", [fn, "slot"],
                   "`%s` tallies into %s, expected AllocOp::%s" % (fn, sorted(s.label() for s in s1), variant), c.line())
-        s2 = b.prov.op_src(c.args[2])
-        ctx.check({s.label() for s in s2} == {"param:" + b.param_name(2)}, "R10.2", [fn, "size-operand"],
-                  "`%s` tallies size %s, expected its `size` parameter" % (fn, sorted(s.label() for s in s2)), c.line())
-        ctx.check(c.args[0] and {s.label() for s in b.prov.op_src(c.args[0])} == {"param:" + b.param_name(1)}, "R10.2",
+        if c.callee.endswith("::tally_op"):
+            s2 = b.prov.op_src(c.args[2])
+            ctx.check({s.label() for s in s2} == {"param:" + b.param_name(2)}, "R10.2", [fn, "size-operand"],
+                      "`%s` tallies size %s, expected its `size` parameter" % (fn, sorted(s.label() for s in s2)), c.line())
+        # (when the slot is updated in place the size added to it is decided by R10.3's path summaries)
+        ctx.check(c.args[0] and {s.label().split(".")[0] for s in b.prov.op_src(c.args[0])} == {"param:" + b.param_name(1)}, "R10.2",
                   [fn, "receiver-self"], "tally_op receiver is not self", c.line())
     b = prog.body("alloc::ThreadAllocInfo::tally_realloc", crate)
     if ctx.anchor("R10.2", "tally_realloc", 1 if b else 0, 1):
@@ -146,7 +158,7 @@ def r10_2(ctx, prog, crate):
             a1 = {s.label() for s in b.prov.op_src(c.args[1])}
             ctx.check(a0 == {"param:" + new} and a1 == {"param:" + old}, "R10.2", ["tally_realloc", "diff-direction"],
                       "size change computed as %s - %s, expected new_size - old_size" % (sorted(a0), sorted(a1)), c.line())
-        ops = [c for c in b.live_calls() if c.callee == "alloc::ThreadAllocInfo::tally_op"]
+        ops = _tally_sites(b)
         if ctx.check(len(ops) == 1, "R10.2", ["tally_realloc", "one-tally_op"], "tally_op sites: %d" % len(ops), b.where(0)):
             c = ops[0]
             s1 = b.prov.op_src(c.args[1])
@@ -162,10 +174,11 @@ def r10_2(ctx, prog, crate):
                 ok = _reads_field_of_call(b, l, "core::num::overflowing_sub", 1)
                 ctx.check(ok, "R10.2", ["tally_realloc", "shrink-flag-is-overflow-bit"],
                           "AllocOp::realloc's argument is not the overflow flag of new_size.overflowing_sub(old_size)", rcall.line())
-            s2 = b.prov.op_src(c.args[2])
-            ctx.check(any(s.kind == "call" and s.a == "core::num::wrapping_abs" for s in s2) and
-                      _abs_of_field0(b, c.args[2]), "R10.2", ["tally_realloc", "size-is-abs-diff"],
-                      "tallied size is not |new_size - old_size| (wrapping_abs of the difference)", c.line())
+            if c.callee.endswith("::tally_op"):
+                s2 = b.prov.op_src(c.args[2])
+                ctx.check(any(s.kind == "call" and s.a == "core::num::wrapping_abs" for s in s2) and
+                          _abs_of_field0(b, c.args[2]), "R10.2", ["tally_realloc", "size-is-abs-diff"],
+                          "tallied size is not |new_size - old_size| (wrapping_abs of the difference)", c.line())
         # current_size += diff (field 0, not abs)
     b = prog.body("alloc::AllocOp::realloc", crate)
     if ctx.anchor("R10.2", "AllocOp::realloc", 1 if b else 0, 1):
@@ -344,7 +357,7 @@ def r10_3(ctx, prog, crate):
             tag = "path%d" % n if len(sums) > 1 else "path"
             where = b.where(sm.blocks[-1])
             allowed = {K("tallies"), K("current_count"), K("current_size"), K("max_count"), K("max_size")}
-            extra = sorted(str(k) for k in sm.mem if k not in allowed)
+            extra = sorted(str(k) for k in sm.mem if k not in allowed and not (isinstance(k[0], tuple) and k[0][:2] == ("ret", "alloc::AllocOpMap::get_mut")))
             ctx.check(not extra, "R10.3", [fn, "writes-only-the-running-totals"] + extra, "`%s` also writes %s" % (fn, extra), where)
             # current_* : exact value
             for f, want in (("current_count", cc), ("current_size", cs)):
@@ -365,17 +378,28 @@ def r10_3(ctx, prog, crate):
                     got = sm.mem.get(K(f))
                     ctx.check(got is None or got == F(f), "R10.3", [fn, "no-max-update" if fn == "tally_dealloc" else f + "-unchanged"],
                               "`%s` writes %s = %s (a %s cannot raise this maximum)" % (fn, f, show(got) if got else None, "deallocation" if fn == "tally_dealloc" else "reallocation"), where)
-            # exactly one tally_op(self, <op>, <size>)
-            ops = [c for c in sm.calls if c[0] == OP]
-            ok = len(ops) == 1 and ops[0][1][0] == ("ptr", (1, ())) and ops[0][1][2] == opsize
+            # exactly one tally_op(self, <op>, <size>) - as a call, or written in place on the slot get_mut(self.tallies, <op>) returns
+            GM = "alloc::AllocOpMap::get_mut"
+            ops = []
+            for c in sm.calls:
+                if c[0] == OP:
+                    ops.append((c[1][1], c[1][2], c[1][0] == ("ptr", (1, ())), c))
+                elif c[0] == GM and c[1] and c[1][0] == ("ptr", (1, ("tallies",))):
+                    reg = ("ret", GM, c[2])
+                    cnt, sz = sm.mem.get((reg, ("count",))), sm.mem.get((reg, ("size",)))
+                    c0, s0 = ("cell", reg, ("count",)), ("cell", reg, ("size",))
+                    okc = cnt == add(c0, ("int", 1))
+                    added = add(sz, s0, -1) if sz is not None else None
+                    ops.append((c[1][1], added, bool(okc and sz is not None), c))
+            ok = len(ops) == 1 and ops[0][2] and ops[0][1] == opsize
             if ok:
-                o = ops[0][1][1]
+                o = ops[0][0]
                 if opname == "realloc":
                     ok = o[0] == "site" and o[1] == "alloc::AllocOp::realloc" and o[3] == (shrink,)
                 else:
                     ok = o[0] == "adt" and o[2] == opname
-            ctx.check(ok, "R10.3", [fn, "tallies-op-and-size"], "`%s` does not call tally_op(self, %s, %s) exactly once: %s" % (fn, opname, show(opsize), [(c[0], [show(a) for a in c[1]]) for c in ops]), where)
-            other = [c[0] for c in sm.calls if c[0] not in (OP, "alloc::AllocOp::realloc")]
+            ctx.check(ok, "R10.3", [fn, "tallies-op-and-size"], "`%s` does not tally (%s, %s) exactly once, by tally_op or in place: %s" % (fn, opname, show(opsize), [(show(o[0]), show(o[1]) if o[1] else None, o[2]) for o in ops]), where)
+            other = [c[0] for c in sm.calls if c[0] not in (OP, "alloc::AllocOp::realloc", GM)]
             ctx.check(not other, "R10.3", [fn, "no-other-calls"] + other, "`%s` calls %s" % (fn, other), where)
     b = prog.body(OP, crate)
     if ctx.anchor("R10.3", "tally_op", 1 if b else 0, 1):
